@@ -157,6 +157,12 @@ func (s *Spec) Encode(v Vals) ([]byte, error) {
 		if !ok {
 			return nil, fmt.Errorf("ref: %s: field %s missing", s.Name, f.Name)
 		}
+		if s.Name == "DutyCycleReq" && x == 255 {
+			// LoRaWAN 1.0 - 1.0.2: MaxDCycle is the whole octet and 255 means "become silent immediately"; from 1.0.3 on the
+			// field has 4 bits. 255 is the one value of the old reading that the 4-bit layout cannot carry.
+			b[f.Off] = 0xff
+			continue
+		}
 		if !f.Representable(x) {
 			return nil, fmt.Errorf("ref: %s.%s=%d is not representable", s.Name, f.Name, x)
 		}
@@ -190,6 +196,10 @@ func (s *Spec) Decode(b []byte) (Vals, error) {
 	}
 	v := Vals{}
 	for _, f := range s.Fields {
+		if s.Name == "DutyCycleReq" && b[f.Off] == 0xff {
+			v[f.Name] = 255 // see Encode
+			continue
+		}
 		switch f.Kind {
 		case KBits, KBool:
 			v[f.Name] = int64(b[f.Off]>>uint(f.Lo)) & (1<<uint(f.Width) - 1)
